@@ -1008,6 +1008,8 @@ func (env *SpecEnv) call(e *SExpr) Val {
 	case "select":
 		a := env.ev(args[0])
 		return VInt{T: Select(env.scalar(a, e), env.evalInt(args[1]))}
+	case "emptyBoolMap":
+		return VModel{T: ConstArr(ArrSort(SBool), tFalse), Dims: 1, Elem: "Bool"}
 	case "decBytes":
 		// the bytes of the decimal rendering of a uint64 (as produced by []byte(fmt.Sprintf("%d", n)))
 		n := env.evalInt(args[0])
